@@ -32,6 +32,7 @@ def run(F, R):
     # ---------------------------------------------------------------- R1 validity gate
     R.rule("C05-R1", "nothing but reading the app set happens before the `all_valid() == true` edge; the false edge only returns")
     lib.check_as_configured(R, "C05-R1", sm.w, sm, {"policy_engine": "policy_engine", "installer": "installer"})
+    lib.builder_setters_preserve(R, "C05-R1", sm.w, sm.c, ["policy_engine", "installer"])
     av = sm.bool_edges(S, lambda n, t: "AppSetExt::all_valid" in fmt_t(t))
     true_e = [(a, b) for (a, b, tr) in av if tr]
     false_e = [(a, b) for (a, b, tr) in av if not tr]
